@@ -653,3 +653,418 @@ fn c04_restore_midside_twin() {
     std::mem::forget(buf);
 }
 
+
+// ===========================================================================
+// C06 slice (i): Decoder::seek - seek-table lookup and repositioning
+// ===========================================================================
+
+use crate::metadata::{SeekPoint, Streaminfo};
+
+/// a seekable source that only records where it was told to go
+pub struct PosReader {
+    pub pos: u64,
+    pub seeks: u32,
+}
+
+impl std::io::Read for PosReader {
+    fn read(&mut self, _buf: &mut [u8]) -> std::io::Result<usize> {
+        Ok(0)
+    }
+}
+
+impl std::io::Seek for PosReader {
+    fn seek(&mut self, to: std::io::SeekFrom) -> std::io::Result<u64> {
+        self.seeks += 1;
+        match to {
+            std::io::SeekFrom::Start(p) => {
+                self.pos = p;
+                Ok(p)
+            }
+            _ => {
+                kani::assert(false, "only absolute seeks are expected from Decoder::seek");
+                Ok(self.pos)
+            }
+        }
+    }
+}
+
+fn model_streaminfo(channels: u8, bps: u32, total: u64) -> Streaminfo {
+    Streaminfo {
+        minimum_block_size: 16,
+        maximum_block_size: 16,
+        minimum_frame_size: None,
+        maximum_frame_size: None,
+        sample_rate: 44100,
+        channels: NonZero::new(channels).unwrap(),
+        bits_per_sample: sbc32(bps),
+        total_samples: NonZero::new(total),
+        md5: None,
+    }
+}
+
+fn any_seekpoint() -> SeekPoint {
+    if kani::any() {
+        SeekPoint::Placeholder
+    } else {
+        SeekPoint::Defined {
+            sample_offset: kani::any(),
+            byte_offset: kani::any(),
+            frame_samples: kani::any(),
+        }
+    }
+}
+
+// @harness prop=C06 tier=quick expect=pass timeout=900
+// @units decode::Decoder::seek metadata::contiguous::Contiguous::try_from metadata::SeekPoint::is_next
+// @bound seek table of 3 points, each a placeholder or a defined point with arbitrary 64-bit sample/byte offsets (only tables the block reader accepts: ascending, placeholders last); arbitrary target sample; arbitrary first-frame offset below 2^32
+// @assume frames_start < 2^32 and byte offsets < 2^62 (offsets near 2^64 overflow frames_start + byte_offset: a file cannot be that long)
+// @oracle lands on the last defined point at or before the target (the stream start if none): source positioned at frames_start + that point's byte offset, current sample = returned sample = that point's sample
+#[kani::proof]
+#[kani::unwind(6)]
+fn c06_decoder_seek_table3() {
+    let pts = [any_seekpoint(), any_seekpoint(), any_seekpoint()];
+    let table = crate::metadata::contiguous::Contiguous::<{ SeekTable::MAX_POINTS }, SeekPoint>::try_from(
+        vec![pts[0].clone(), pts[1].clone(), pts[2].clone()],
+    );
+    kani::assume(table.is_ok());
+    let mut blocks = BlockList::new(model_streaminfo(1, 16, 0));
+    blocks.insert(SeekTable { points: table.unwrap() });
+    let mut d = Decoder::new(PosReader { pos: 0, seeks: 0 }, blocks);
+    d.current_sample = kani::any();
+    let frames_start: u64 = kani::any();
+    kani::assume(frames_start < (1 << 32));
+    let target: u64 = kani::any();
+    // reference: scan for the last defined point <= target
+    let mut want_sample: u64 = 0;
+    let mut want_byte: u64 = 0;
+    let mut i = 0;
+    while i < 3 {
+        if let SeekPoint::Defined { sample_offset, byte_offset, .. } = &pts[i] {
+            kani::assume(*byte_offset < (1 << 62));
+            if *sample_offset <= target {
+                want_sample = *sample_offset;
+                want_byte = *byte_offset;
+            }
+        }
+        i += 1;
+    }
+    let r = d.seek(frames_start, target);
+    assert!(matches!(r, Ok(s) if s == want_sample));
+    assert!(d.current_sample == want_sample);
+    assert!(d.reader.pos == frames_start + want_byte && d.reader.seeks == 1);
+    kani::cover!(want_sample > 0 && want_sample < target);
+    kani::cover!(matches!(pts[2], SeekPoint::Placeholder) && want_sample > 0);
+    std::mem::forget(r);
+    std::mem::forget(d);
+}
+
+// @harness prop=C06 tier=quick expect=pass timeout=600
+// @units decode::Decoder::seek
+// @bound no seek table at all; arbitrary target and first-frame offset
+// @oracle rewinds to the first frame: position frames_start, current sample 0
+#[kani::proof]
+#[kani::unwind(4)]
+fn c06_decoder_seek_no_table() {
+    let blocks = BlockList::new(model_streaminfo(2, 16, 0));
+    let mut d = Decoder::new(PosReader { pos: 7, seeks: 0 }, blocks);
+    d.current_sample = kani::any();
+    let frames_start: u64 = kani::any();
+    let target: u64 = kani::any();
+    let r = d.seek(frames_start, target);
+    assert!(matches!(r, Ok(0)));
+    assert!(d.current_sample == 0 && d.reader.pos == frames_start);
+    std::mem::forget(r);
+    std::mem::forget(d);
+}
+
+// @harness prop=C04,C06 tier=quick expect=pass timeout=600
+// @units decode::Decoder::seek
+// @bound seek table of 1 defined point with arbitrary 64-bit sample and byte offsets (as a malformed file can declare), arbitrary target and first-frame offset
+// @oracle no panic (frames_start + byte_offset must not overflow); an unreachable offset is an error
+#[kani::proof]
+#[kani::unwind(4)]
+fn c04_decoder_seek_any_offsets() {
+    let p = SeekPoint::Defined {
+        sample_offset: kani::any(),
+        byte_offset: kani::any(),
+        frame_samples: kani::any(),
+    };
+    let table = crate::metadata::contiguous::Contiguous::<{ SeekTable::MAX_POINTS }, SeekPoint>::try_from(vec![p]);
+    kani::assume(table.is_ok());
+    let mut blocks = BlockList::new(model_streaminfo(1, 16, 0));
+    blocks.insert(SeekTable { points: table.unwrap() });
+    let mut d = Decoder::new(PosReader { pos: 0, seeks: 0 }, blocks);
+    let r = d.seek(kani::any(), kani::any());
+    kani::cover!(r.is_ok());
+    kani::cover!(r.is_err());
+    std::mem::forget(r);
+    std::mem::forget(d);
+}
+
+// ===========================================================================
+// C06 slice (ii): position arithmetic of the byte reader's std::io::Seek
+// ===========================================================================
+
+/// stand-in for Decoder::seek: records the requested sample in
+/// `current_sample` and fails, so that the front-end returns right after
+/// computing its request
+fn stub_seek_record<R: std::io::Seek>(d: &mut Decoder<R>, _frames_start: u64, sample: u64) -> Result<u64, Error> {
+    d.current_sample = sample;
+    Err(Error::InvalidSeek)
+}
+
+// @harness prop=C06 tier=quick expect=pass timeout=900 replay=driver
+// @units decode::FlacByteReader::seek (position arithmetic up to the call of Decoder::seek)
+// @stubs decode::Decoder::seek
+// @bound every SeekFrom variant with arbitrary offset; channels 1..=8, depth 1..=32, total samples 1..2^36-1 or unknown, current sample <= total, 0 or 3 undelivered bytes in the buffer
+// @assume reader invariant: buffered bytes <= current_sample * bytes-per-PCM-frame; current_sample <= total
+// @oracle std::io::Seek semantics over the decoded PCM bytes: target = Start(p) | position + Current(o) | total*bytes_per_frame + End(o); the sample asked of the decoder is floor(target / bytes-per-PCM-frame); Current(0) reports the position without seeking; negative targets and End(o > 0) are errors; unknown total makes End an error
+#[kani::proof]
+#[kani::unwind(6)]
+#[kani::stub(Decoder::seek, stub_seek_record)]
+fn c06_byte_reader_seek_arithmetic() {
+    use std::io::{Seek, SeekFrom};
+    let channels: u8 = kani::any();
+    kani::assume(channels >= 1 && channels <= 8);
+    let bps: u32 = kani::any();
+    kani::assume(bps >= 1 && bps <= 32);
+    let total: u64 = kani::any();
+    kani::assume(total < (1 << 36));
+    let cur: u64 = kani::any();
+    kani::assume(total == 0 || cur <= total);
+    kani::assume(cur < (1 << 36));
+    let bpf = u64::from((bps + 7) / 8) * u64::from(channels);
+    let buffered: usize = if kani::any() { 3 } else { 0 };
+    kani::assume(buffered as u64 <= cur * bpf);
+    let mut d = Decoder::new(PosReader { pos: 0, seeks: 0 }, BlockList::new(model_streaminfo(channels, bps, total)));
+    d.current_sample = cur;
+    let mut buf: VecDeque<u8> = VecDeque::new();
+    if buffered == 3 {
+        buf.push_back(1);
+        buf.push_back(2);
+        buf.push_back(3);
+    }
+    let mut rd: FlacByteReader<PosReader, crate::byteorder::LittleEndian> = FlacByteReader {
+        decoder: d,
+        buf,
+        endianness: std::marker::PhantomData,
+        frames_start: Some(42),
+    };
+    const SENTINEL: u64 = u64::MAX;
+    rd.decoder.current_sample = SENTINEL; // the stub overwrites it with its request
+    let position = cur * bpf - buffered as u64;
+    let which: u8 = kani::any();
+    let off: i64 = kani::any();
+    let p: u64 = kani::any();
+    // restore the real current sample for the Current arithmetic
+    rd.decoder.current_sample = cur;
+    let (req, target): (SeekFrom, Option<u128>) = match which % 3 {
+        0 => (SeekFrom::Start(p), Some(u128::from(p))),
+        1 => {
+            let t = i128::from(position) + i128::from(off);
+            (SeekFrom::Current(off), if t >= 0 { Some(t as u128) } else { None })
+        }
+        _ => {
+            let t = i128::from(total) * i128::from(bpf) + i128::from(off);
+            (
+                SeekFrom::End(off),
+                if total != 0 && off <= 0 && t >= 0 { Some(t as u128) } else { None },
+            )
+        }
+    };
+    let r = rd.seek(req);
+    if which % 3 == 1 && off == 0 {
+        assert!(matches!(r, Ok(v) if v == position));
+        assert!(rd.decoder.current_sample == cur);
+    } else {
+        // the stub always fails, so the call never reports success
+        assert!(r.is_err());
+        match target {
+            Some(t) if t <= u128::from(u64::MAX) => {
+                // floor(t / bpf), stated without a second divider circuit
+                let q = u128::from(rd.decoder.current_sample);
+                assert!(q * u128::from(bpf) <= t && t < (q + 1) * u128::from(bpf));
+            }
+            _ => assert!(rd.decoder.current_sample == cur), // rejected before asking the decoder
+        }
+    }
+    kani::cover!(which % 3 == 2 && target.is_some());
+    kani::cover!(which % 3 == 1 && off < 0 && target.is_some());
+    std::mem::forget(r);
+    std::mem::forget(rd);
+}
+
+// ===========================================================================
+// Model stream for the reader front-ends (C06 slice iii, C07).
+//
+// `Decoder::read_frame` is replaced (kani::stub) by a model decoder over a
+// model source: the stream holds MT channel-independent samples in frames of
+// MB samples (the last one shorter), every frame occupies MFL bytes from byte
+// MFS on, and the value of each sample *is* its absolute position
+// (sample index * channels + channel), so that "the reader delivered position
+// p" is observable.  Decoder::seek, every front-end read/fill_buf/consume/seek
+// and the seek-table lookup remain real code.
+// ===========================================================================
+
+const MT: u64 = 4; // total samples per channel (a multiple of MB: every model frame has the same, concrete, length - a symbolic Vec::resize length exhausts memory)
+const MB: u64 = 2; // block size
+const MFL: u64 = 10; // bytes per frame (constant in the model)
+const MFS: u64 = 42; // offset of the first frame
+
+pub struct ModelSrc {
+    /// index of the frame the source is positioned at
+    pub frame: u64,
+    pub seeks: u32,
+}
+
+impl std::io::Read for ModelSrc {
+    /// side channel for the stub: an 8-byte read reports the frame index,
+    /// a 1-byte read advances to the next frame
+    fn read(&mut self, buf: &mut [u8]) -> std::io::Result<usize> {
+        if buf.len() == 8 {
+            buf.copy_from_slice(&self.frame.to_le_bytes());
+            Ok(8)
+        } else {
+            self.frame += 1;
+            Ok(1)
+        }
+    }
+}
+
+impl std::io::Seek for ModelSrc {
+    fn seek(&mut self, to: std::io::SeekFrom) -> std::io::Result<u64> {
+        self.seeks += 1;
+        match to {
+            std::io::SeekFrom::Start(p) => {
+                kani::assert(
+                    p >= MFS && (p - MFS) % MFL == 0 && (p - MFS) / MFL <= (MT + MB - 1) / MB,
+                    "the decoder repositioned the source to something that is not a frame boundary",
+                );
+                self.frame = (p - MFS) / MFL;
+                Ok(p)
+            }
+            _ => {
+                kani::assert(false, "only absolute seeks are expected");
+                Ok(0)
+            }
+        }
+    }
+}
+
+fn model_read_frame<R: std::io::Read>(d: &mut Decoder<R>) -> Result<Option<&Frame>, Error> {
+    use std::io::Read;
+    let mut b = [0u8; 8];
+    let _ = d.reader.read(&mut b);
+    let k = u64::from_le_bytes(b);
+    kani::assert(
+        d.current_sample == k * MB || (k * MB >= MT && d.current_sample == MT),
+        "decoder sample position and source byte position diverged",
+    );
+    if k * MB >= MT {
+        return Ok(None);
+    }
+    let n = MB;
+    let channels = usize::from(d.blocks.streaminfo().channels.get());
+    let bps: u32 = d.blocks.streaminfo().bits_per_sample.into();
+    let s = d.buf.resize(bps, channels, n as usize);
+    let mut c = 0;
+    while c < channels {
+        let mut i = 0;
+        while i < n as usize {
+            s[c * n as usize + i] = ((k * MB + i as u64) * channels as u64 + c as u64) as i32;
+            i += 1;
+        }
+        c += 1;
+    }
+    let mut one = [0u8; 1];
+    let _ = d.reader.read(&mut one);
+    d.current_sample += n;
+    Ok(Some(&d.buf))
+}
+
+fn model_decoder(channels: u8, bps: u32, table: Option<Vec<SeekPoint>>) -> Decoder<ModelSrc> {
+    let mut blocks = BlockList::new(model_streaminfo(channels, bps, MT));
+    if let Some(points) = table {
+        blocks.insert(SeekTable {
+            points: points.try_into().unwrap(),
+        });
+    }
+    Decoder::new(ModelSrc { frame: 0, seeks: 0 }, blocks)
+}
+
+fn frame_point(k: u64) -> SeekPoint {
+    SeekPoint::Defined {
+        sample_offset: k * MB,
+        byte_offset: k * MFL,
+        frame_samples: MB as u16,
+    }
+}
+
+macro_rules! c06_channel_seek {
+    ($name:ident, $table:expr, $history:expr) => {
+        #[kani::proof]
+        #[kani::unwind(8)]
+        #[kani::stub(Decoder::read_frame, model_read_frame)]
+        fn $name() {
+            let mut rd = FlacChannelReader {
+                decoder: model_decoder(1, 16, $table),
+                consumed: 0,
+                frames_start: Some(MFS),
+            };
+            // history: nothing, or one fill with a partial consume
+            if $history {
+                let n = rd.fill_buf().map(|b| b[0].len()).unwrap_or(0);
+                let k: usize = kani::any();
+                kani::assume(k <= n);
+                rd.consume(k);
+            }
+            let target: u64 = kani::any();
+            kani::assume(target <= MT + 1);
+            let r = rd.seek(target);
+            if target <= MT {
+                assert!(r.is_ok());
+                let b = rd.fill_buf();
+                assert!(b.is_ok());
+                let b = b.unwrap();
+                if target < MT {
+                    // the next sample delivered is the requested one
+                    assert!(b[0].len() >= 1 && b[0][0] == target as i32);
+                } else {
+                    assert!(b[0].is_empty());
+                }
+                std::mem::forget(b);
+            } else {
+                assert!(matches!(r, Err(Error::InvalidSeek)));
+                // nothing stale afterwards
+                let b = rd.fill_buf();
+                assert!(matches!(&b, Ok(v) if v[0].is_empty()) || b.is_err());
+                std::mem::forget(b);
+            }
+            std::mem::forget(r);
+            std::mem::forget(rd);
+        }
+    };
+}
+
+// @harness prop=C06 tier=quick expect=pass timeout=1500 replay=driver
+// @units decode::FlacChannelReader::seek decode::FlacChannelReader::fill_buf decode::FlacChannelReader::consume decode::Decoder::seek
+// @stubs decode::Decoder::read_frame(model stream)
+// @bound mono model stream of 4 samples in 2 frames of 2; no seek table; fresh reader; target 0..=5 symbolic (frame boundaries, mid-frame, end, end+1)
+// @oracle Ok => the next fill_buf starts exactly at the target (empty at the end of the stream); beyond the end => Err(InvalidSeek) and no stale data afterwards
+c06_channel_seek!(c06_channel_reader_seek_no_table, None, false);
+
+// @harness prop=C06 tier=thorough expect=pass timeout=2400 replay=driver
+// @units decode::FlacChannelReader::seek decode::Decoder::seek
+// @stubs decode::Decoder::read_frame(model stream)
+// @bound as above with a seek table naming both frames followed by a placeholder
+c06_channel_seek!(
+    c06_channel_reader_seek_sparse_table,
+    Some(vec![frame_point(0), frame_point(1), SeekPoint::Placeholder]),
+    false
+);
+
+// @harness prop=C06 tier=thorough expect=pass timeout=2400 replay=driver
+// @units decode::FlacChannelReader::seek decode::FlacChannelReader::fill_buf decode::FlacChannelReader::consume
+// @stubs decode::Decoder::read_frame(model stream)
+// @bound no seek table; history: one fill_buf + consume(k), k symbolic 0..=2, before the seek (the frame decoded before the seek must not be handed out afterwards)
+c06_channel_seek!(c06_channel_reader_seek_after_read, None, true);
